@@ -1,7 +1,7 @@
 #!/bin/sh
 # usage: seedeval.sh <property id> <variant> [check ids to run, default the property's own] 
 # Evaluates a sub-agent's seeded change in the scratch worktree /tmp/mut (never in /repo).
-id=$1; var=$2; shift 2; checks=${*:-$id}
+id=$1; var=$2; shift 2; prop=C$(echo $id | tr -d "A-Z"); checks=${*:-$prop}
 out=/tmp/seed/$id.out
 cd /tmp/mut && git checkout -q -- . && git clean -qfd
 demo() { if [ -f $out/$var.demo.py ]; then timeout 600 /venv/bin/python $out/$var.demo.py /tmp/mut >/tmp/seed/$id.$var.demo.log 2>&1; else timeout 600 sh $out/$var.demo.sh /tmp/mut >/tmp/seed/$id.$var.demo.log 2>&1; fi; echo $?; }
